@@ -265,6 +265,61 @@ def stage(ctx, thorough, seed):
         for rep in range(reps):
             jobs.append((tid, d0, prog, seed * 7919 + tid))
             tid += 10
+    # random walks: longer programs (4-6 operations) than TLC enumerates for replay; every step is still validated by
+    # LibraryTrace.tla against the composed contracts (membership in Out1W / OutMulW / ValueOK)
+    rngw = np.random.default_rng(seed * 104729 + 7)
+    nwalk = 1500 if thorough else 150
+
+    def outs_of(op, a):
+        """abstract results (m, n, r, herm) of an operation, mirroring LibraryDefs.Out1 (r None = not determined)"""
+        m_, n_, r_, h_ = a
+        k_ = min(m_, n_)
+        return {"herm": [(n_, m_, r_, h_)], "gram": [(n_, n_, r_, True)], "qr": [(m_, k_, k_, False), (k_, n_, r_, False)],
+                "svd": [(m_, m_, m_, False), (n_, n_, n_, False)], "null": [(n_, n_ - (r_ or 0), n_ - (r_ or 0), False)],
+                "pinv": [(n_, m_, r_, h_)], "hess": [(n_, n_, n_, False), (n_, n_, r_, h_)], "eig": [(n_, n_, n_, False)],
+                "lu": [(m_, k_, k_, False), (k_, n_, r_, False), (m_, m_, m_, False)], "tridiag": [(n_, n_, n_, False), (n_, n_, r_, True)],
+                "nullL": [(m_, m_ - (r_ or 0), m_ - (r_ or 0), False)], "trunc1": [(m_, 1, 1, False), (n_, 1, 1, False)],
+                "schur": [(n_, n_, n_, False), (n_, n_, r_, False)], "rank": [], "det": []}[op]
+
+    def enabled(op, a):
+        m_, n_, r_, h_ = a
+        if op in ("null", "nullL", "lu", "trunc1") and r_ is None:
+            return False
+        return {"null": r_ is not None and r_ < n_, "nullL": r_ is not None and r_ < m_, "hess": m_ == n_, "schur": m_ == n_, "det": m_ == n_,
+                "eig": h_, "tridiag": h_ and n_ >= 2, "lu": r_ == min(m_, n_), "trunc1": (r_ or 0) >= 1}.get(op, True)
+
+    ops1 = ["herm", "gram", "qr", "svd", "null", "pinv", "hess", "eig", "lu", "tridiag", "nullL", "trunc1", "schur", "rank", "det"]
+    for w in range(nwalk):
+        m0, n0 = int(rngw.integers(1, 5)), int(rngw.integers(1, 5))
+        h0 = bool(rngw.random() < 0.3)
+        if h0:
+            n0 = m0
+        r0 = int(rngw.integers(0, min(m0, n0) + 1))
+        d0 = {"m": m0, "n": n0, "r": r0, "orth": False, "herm": h0, "tri": False}
+        prog = [("input", 0, 0)]
+        ah = [(m0, n0, r0, h0)]
+        for _ in range(int(rngw.integers(4, 7))):
+            i = int(rngw.integers(max(1, len(ah) - 3), len(ah) + 1))      # prefer recent results: compositions
+            a = ah[i - 1]
+            if a[0] < 1 or a[1] < 1:
+                continue
+            cand = [o for o in ops1 if enabled(o, a)]
+            js = [j for j in range(1, len(ah) + 1) if ah[j - 1][0] == a[1] and ah[j - 1][1] >= 1]
+            if js:
+                cand.append("mul")
+            op = cand[int(rngw.integers(0, len(cand)))]
+            if op == "mul":
+                j = js[int(rngw.integers(0, len(js)))]
+                prog.append((op, i, j))
+                ah.append((a[0], ah[j - 1][1], None, False))
+            else:
+                prog.append((op, i, 0))
+                ah += outs_of(op, a)
+            if len(ah) > 9:
+                break
+        jobs.append((tid, d0, prog, seed * 7919 + tid))
+        tid += 10
+    ctx.notes["library_random_walk_programs"] = nwalk
     outs = par.pmap(_run_program, jobs)
     events = []
     skipped = 0
